@@ -1,18 +1,20 @@
 #!/bin/bash
-# tools/seed_matrix.sh: runs, for every kept seed, the quick check of the property it targets against /repo with the
-# seed applied (and restored afterwards); writes /verif/seeded/RESULTS.md. /repo must be clean.
+# tools/seed_matrix.sh [pattern]: for every kept seed (/verif/seeded/<id>-<x>/patch.diff, optionally filtered by a
+# glob pattern) runs the quick check of the property it targets in a side laboratory (tools/lab.sh: scratch worktree
+# of /repo's HEAD + scratch copy of /verif; neither /repo nor /verif is touched) and writes /verif/seeded/RESULTS.md.
+pat=${1:-C*}
 out=/verif/seeded/RESULTS.md
-echo "# Seeded changes versus the quick checks (HEAD $(git -C /repo log --format=%h -1), $(date -u +%F))" > $out
-echo >> $out
-echo "| seed | check | exit | first violation identities |" >> $out
-echo "|---|---|---|---|" >> $out
-for d in $(ls -d /verif/seeded/C*/ | xargs -n1 basename); do
+tmp=$(mktemp)
+for d in $(ls -d /verif/seeded/$pat/ | xargs -n1 basename); do
   id=${d%%-*}
-  if ! git -C /repo diff --quiet; then echo "/repo dirty"; exit 2; fi
-  if ! git -C /repo apply /verif/seeded/$d/patch.diff 2>/dev/null; then echo "| $d | $id | - | patch does not apply |" >> $out; continue; fi
-  log=$(/verif/vrun $id quick 2>&1); rc=$?
-  git -C /repo checkout -- . ; git -C /repo clean -fdq
-  ids=$(echo "$log" | grep "^  identity:" | head -3 | sed 's/^  identity: //' | tr '\n' ';' | sed 's/|/\\|/g')
-  echo "| $d | $id | $rc | ${ids:-none} |" >> $out
+  line=$(LAB_IDS=3 /verif/tools/lab.sh m_$d /verif/seeded/$d/patch.diff $id 2>&1 | grep "^m_$d $id" | head -1)
+  if [ -z "$line" ]; then echo "| $d | $id | - | patch does not apply at HEAD |" >> $tmp; echo "$d: patch does not apply"; continue; fi
+  rc=$(echo "$line" | sed -n 's/.* exit=\([0-9]*\) .*/\1/p')
+  ids=$(echo "$line" | sed 's/.*wall=[0-9.]*s //; s/^m_[^ ]* [^ ]* exit=[0-9]* *//' | sed 's/|/\\|/g')
+  echo "| $d | $id | $rc | ${ids:-none} |" >> $tmp
   echo "$d $id exit=$rc"
 done
+{ echo "# Seeded changes versus the quick check of the targeted property (HEAD $(git -C /repo log --format=%h -1), $(date -u +%F))"; echo;
+  echo "exit 1 = the check reports a VIOLATION with the seed applied (caught); 0 = not caught."; echo;
+  echo "| seed | check | exit | first violation identities |"; echo "|---|---|---|---|"; sort $tmp; } > $out
+rm -f $tmp
